@@ -163,13 +163,14 @@ func classifyC05(b []byte, dest string, mode int) string {
 	if shapeAccepts(dest, b, false, false) {
 		return "" // the strict acceptor takes it although encoding/json.Valid does not: unexplained
 	}
-	if shapeAccepts(dest, b, true, false) {
+	// the buffer-mode skip functions check what they step over (repaired); the stream-mode ones do not yet
+	if mode != 0 && shapeAccepts(dest, b, true, false) {
 		return "SkipUnvalidated"
 	}
 	if shapeAccepts(dest, b, false, true) {
 		return "StructKeyUnvalidated"
 	}
-	if shapeAccepts(dest, b, true, true) {
+	if mode != 0 && shapeAccepts(dest, b, true, true) {
 		return "SkipUnvalidated"
 	}
 	if mode != 0 && (bytes.IndexByte(b, '\\') >= 0 || bytes.IndexByte(b, 0) >= 0) {
